@@ -24,6 +24,8 @@ RULE = ("(a) systematic: 2..4 threads x 1..3 failing exec calls with unique path
         "switch point is reported deterministically; (b) stress: up to 64 free-running threads released from a barrier under "
         "ThreadSanitizer, formats cycling through every data source, file and stdout outputs, with and without a filter chain of differently named filters; (c) the same call sequences single-threaded in the "
         "non-thread-safe build. non-trivial (a) = schedule whose executed trace interleaves two calls inside the library; "
+        "for 2x1 shapes also every directed pair 'thread 0 preempted at one of its close() calls x thread 1 handing back at a point where it owns a descriptor' (one shape with a record too large to send in thread 0); "
+        "the process-wide state (umask set to 0002/0000, descriptor table, signal dispositions and mask, cwd, environment) is compared before the threads start and after all calls returned; "
         "distinct by the executed lock/unlock interleaving string")
 
 FMT = b"%{tid}|%{tid_kernel}|%{snoopy_threads}|%{filename}|%{login}|%{cmdline}"
@@ -60,20 +62,25 @@ def scenario(out, shape, sched, fmt=FMT):
     nt, nc = shape[0], shape[1]
     okind = shape[2] if len(shape) > 2 else "file"
     chain = CHAINS[shape[3]] if len(shape) > 3 else None
+    big0 = len(shape) > 4 and shape[4] == "big0"
     oval = {"file": b"file:" + out.encode() + b"/log", "stdout": b"stdout", "stderr": b"stderr", "socket": b"socket:" + out.encode() + b"/sock"}[okind]
     opts = [(b"output", oval), (b"message_format", fmt)]
     if chain:
         opts.append((b"filter_chain", chain))
+    if big0:
+        # thread 0's record is larger than a datagram can be: ITS send() fails (EMSGSIZE) -- the other threads' records must not suffer
+        opts += [(b"datasource_message_max_length", b"1048575"), (b"log_message_max_length", b"1048575")]
     ini = gen.render_ini(opts)
     ops = [drv.op("x", out + "/log"), drv.op("W", "log", out + "/log"), drv.op("S", 1, "pipe"), drv.op("S", 2, "pipe"), drv.op("K", "sock", out + "/sock"),
-           drv.op("C", ini), drv.op_env([b"LOGNAME=lg", b"HOME=/root"])]
+           drv.op("C", ini), drv.op_env([b"LOGNAME=lg", b"HOME=/root"]), drv.op("k", "0002"), drv.op("P")]
     flat = [x for p in sched for x in p]
     ops.append(drv.op("z", nt, *flat))
     for t in range(nt):
         for k in range(nc):
-            ops.append(drv.op_exec("e" if (t + k) % 2 == 0 else "v", b"/bin/t%dc%d" % (t, k), [b"t%dc%d" % (t, k), b"arg-%d-%d" % (t, k)], [b"E=%d" % t],
+            argv = [b"t%dc%d" % (t, k), b"arg-%d-%d" % (t, k)] + ([b"B" * 300000] if big0 and t == 0 else [])
+            ops.append(drv.op_exec("e" if (t + k) % 2 == 0 else "v", b"/bin/t%dc%d" % (t, k), argv, [b"E=%d" % t],
                                    ret=-1, err=2, tno=t, callno=k))
-    ops += [drv.op_exec("e", b"/bin/lone", [b"lone", b"call"], [], ret=-1, err=2), drv.op("L"), drv.op("G")]
+    ops += [drv.op("P"), drv.op_exec("e", b"/bin/lone", [b"lone", b"call"], [], ret=-1, err=2), drv.op("L"), drv.op("G")]
     return ops
 
 
@@ -119,6 +126,11 @@ def run_sched(d, shape, sched, tsan=False):
     if not res.clean or not Z:
         raise Failure("process crashed (%s)" % what, {"result": res.describe(), "sanitizer": [r[:1500] for r in reports[:1]]}, key="crash")
     trace = Z[0].f[0].decode()
+    Ps = res.of("P")
+    if len(Ps) == 2 and Ps[0].f[0] != Ps[1].f[0]:
+        # process-wide state (umask 0002, descriptors, signal dispositions, cwd, environment) after all calls returned
+        import C16
+        raise Failure("process-wide state differs after the concurrent calls returned (%s)" % what, C16.diff_state(Ps[0].f[0], Ps[1].f[0]), key="process-state")
     Rs = res.of("R")
     if len(Rs) != nt * nc + 1:
         raise Failure("%d of %d calls reached the real exec (%s)" % (len(Rs), nt * nc + 1, what), None, key="count")
@@ -138,8 +150,10 @@ def run_sched(d, shape, sched, tsan=False):
         if lines:
             raise Failure("call logged although the chain drops it when evaluated alone (%s)" % what, {"records": [l[:120] for l in lines[:4]]}, key="chain")
         return trace, int(Z[0].f[1])
-    if len(lines) != nt * nc + 1:
-        raise Failure("%d records for %d calls (%s)" % (len(lines), nt * nc + 1, what), {"records": lines[:8]}, key="records")
+    big0 = len(shape) > 4 and shape[4] == "big0"
+    nrec = nt * nc + 1 - (nc if big0 else 0)        # (thread 0's oversized records cannot be delivered)
+    if len(lines) != nrec:
+        raise Failure("%d records for %d deliverable calls (%s)" % (len(lines), nrec, what), {"records": [l[:120] for l in lines[:8]]}, key="records")
     seen = set()
     for ln in lines[:-1]:
         f = ln.split(b"|")
@@ -189,7 +203,7 @@ def worker(args):
             trace, steps = run_sched(d, shape, sched, tsan=(variant == "ts-tsan"))
             h = hashlib.sha1((variant + trace).encode()).hexdigest()[:16]
             local.count(h if interleaves(trace) else None, [variant, "shape:%dx%d" % tuple(shape[:2]), "preemptions:%d" % len(sched)] +
-                        (["out:" + shape[2], "chain:" + shape[3]] if len(shape) > 2 else []),
+                        (["out:" + shape[2], "chain:" + shape[3]] if len(shape) > 2 else []) + (["oversized-record-in-thread-0"] if len(shape) > 4 else []),
                         sample={"variant": variant, "shape": list(shape), "preemptions": [list(p) for p in sched], "trace_head": trace[:80]})
         except Failure as f:
             local.count("fail:" + f.key, [variant, "violating"], sample=case)
@@ -213,7 +227,27 @@ def steps_of(ctx, builds, shape):
         trace, steps = run_sched(d, shape, [])
     finally:
         d.close()
+    steps_of.trace = trace
     return steps
+
+
+def descriptor_window_pairs(trace):
+    """Directed two-preemption schedules for 2 threads: thread 0 is preempted at one of its descriptor-closing calls, thread 1 runs up to a
+    point at which it owns a descriptor (between one of its descriptor-creating calls and the matching close) and hands back -- the
+    schedules under which a stray or repeated close() in one thread hits a descriptor of the other."""
+    pts = [(trace[i], trace[i + 1]) for i in range(0, len(trace) - 1, 2) if trace[i + 1] not in "sxLb"]
+    t0 = [k for t, k in pts if t == "0"]
+    t1 = [k for t, k in pts if t == "1"]
+    closes = [i + 1 for i, k in enumerate(t0) if k == "C"]
+    owning, depth = [], 0
+    for j, k in enumerate(t1):
+        if k == "O":
+            depth += 1
+        elif depth > 0:
+            owning.append(j + 1)
+        if k == "C" and depth > 0:
+            depth -= 1
+    return [[(a, 1), (a + j, 0)] for a in closes for j in owning]
 
 
 def stress(ctx, builds, rounds, nthreads):
@@ -228,11 +262,11 @@ def stress(ctx, builds, rounds, nthreads):
                 opts.append((b"filter_chain", CHAINS["mixed"]))
             ini = gen.render_ini(opts)
             ops = [drv.op("x", out + "/log"), drv.op("W", "log", out + "/log"), drv.op("S", 1, "pipe"), drv.op("C", ini), drv.op_env([b"LOGNAME=lg", b"HOME=/root"]),
-                   drv.op("Z", nthreads, 1)]
+                   drv.op("k", "0000" if r % 2 else "0002"), drv.op("P"), drv.op("Z", nthreads, 1)]
             for t in range(nthreads):
                 for k in range(3):
                     ops.append(drv.op_exec("e", b"/bin/s%dc%d" % (t, k), [b"s%dc%d" % (t, k)], [], ret=-1, err=2, tno=t, callno=k))
-            ops += [drv.op_exec("e", b"/bin/lone", [b"lone"], [], ret=-1, err=2), drv.op("G")]
+            ops += [drv.op("P"), drv.op_exec("e", b"/bin/lone", [b"lone"], [], ret=-1, err=2), drv.op("G")]
             res = d.scenario(ops)
             reports = d.sanitizer_reports()
             ctx.evaluations += 1
@@ -244,6 +278,10 @@ def stress(ctx, builds, rounds, nthreads):
                 return {"what": "data race reported by ThreadSanitizer at %s under stress (%s)" % (m.group(1) if m else "?", what), "observed": {"report": mine[0][:1800]}}
             if not res.clean and not (res.exitcode == 66 and reports):
                 return {"what": "crash or hang under stress (%s)" % what, "observed": {"result": res.describe(), "sanitizer": [x[:1500] for x in reports[:1]]}}
+            Ps = res.of("P")
+            if len(Ps) == 2 and Ps[0].f[0] != Ps[1].f[0]:
+                import C16
+                return {"what": "process-wide state differs after the concurrent calls returned (%s)" % what, "observed": C16.diff_state(Ps[0].f[0], Ps[1].f[0])}
             dump = drv.parse_dump(res.of("G")[-1])
             lines = (dump["log" if okind == "file" else "fd1"][2] or b"").split(b"\n")[:-1]
             if len(lines) != nthreads * 3 + 1:
@@ -285,7 +323,8 @@ def main():
     jobs = []
     shapes = [(2, 1), (2, 2), (3, 1)] if ctx.quick else [(2, 1), (2, 2), (3, 1), (2, 3), (3, 2), (4, 1), (4, 3)]
     # other outputs and filter chains (every libc call the library makes is a scheduling point as well)
-    shapes += [(2, 1, "stdout", "none"), (2, 1, "socket", "pass"), (2, 1, "file", "droplast"), (2, 1, "stderr", "droplast"), (2, 1, "file", "mixed")]
+    shapes += [(2, 1, "stdout", "none"), (2, 1, "socket", "pass"), (2, 1, "file", "droplast"), (2, 1, "stderr", "droplast"), (2, 1, "file", "mixed"),
+               (2, 1, "socket", "none", "big0")]
     if not ctx.quick:
         shapes += [(3, 1, "stdout", "pass"), (2, 2, "file", "droplast"), (2, 2, "socket", "none"), (3, 1, "stderr", "none")]
     for shape in shapes:
@@ -301,6 +340,10 @@ def main():
         ctx.extra["steps_" + "x".join(str(x) for x in shape)] = S
         singles = [[(s, t)] for s in range(1, S + 1) for t in range(nt)]
         plain = [[]] + singles
+        if len(shape) > 4 or shape == (2, 1):
+            directed = descriptor_window_pairs(steps_of.trace)
+            ctx.extra["directed_descriptor_window_pairs_" + "x".join(str(x) for x in shape)] = len(directed)
+            plain += directed
         if shape == (2, 1):
             pairs = [[(a, 1), (b, 0)] for a in range(1, S + 1) for b in range(a + 1, S + 1)] + [[(a, 1), (b, 1)] for a in range(1, S // 2) for b in range(a + 1, S + 1, 3)]
             plain += pairs if not ctx.quick else rng.sample(pairs, min(len(pairs), 700))
